@@ -499,6 +499,9 @@ class Trace:
         self.seq = 0
         self.act = 0
         self.nver = {}
+        self.dtypes = False  # opt-in: conversions to a floating dtype stay visible as  asfloat(x),  other casts as  ascast(x, dtype)
+        self.floats = []     # nodes that bring a floating value into the evaluated code without leaving a mark in the values: float
+                             # literals (1.0 * x is x), true divisions, casts the evaluator writes as the identity
 
 
 def module_names(mod):
@@ -756,6 +759,27 @@ class XEval(AutoEvaluator):
         return ix
 
     def _ev(self, node):
+        if (isinstance(node, ast.Constant) and isinstance(node.value, (float, complex))) or (isinstance(node, ast.BinOp) and isinstance(node.op, ast.Div)):
+            self.tr.floats.append(node)
+        if isinstance(node, ast.BinOp) and self.tr.dtypes and isinstance(node.op, (ast.Mult, ast.Add, ast.Sub)) and not getattr(node, '_c10_seen', False) \
+                and any(isinstance(x, ast.Constant) and isinstance(x.value, float) for x in (node.left, node.right)):
+            # array (+ - *) float literal: the result is floating point whatever the array was (1.0 * x is not x)
+            n0 = len(self.tr.floats)
+            node._c10_seen = True
+            try:
+                r = self._ev(node)
+            finally:
+                node._c10_seen = False
+            if is_unknown(r) or isinstance(r, tuple) or r is None:
+                return r
+            del self.tr.floats[n0:]
+            return F.fn('asfloat', need(r))
+        if isinstance(node, ast.BinOp) and isinstance(node.op, ast.BitXor) and self.tr.dtypes:
+            a, b = self._ev(node.left), self._ev(node.right)
+            if is_unknown(a) or is_unknown(b) or isinstance(a, tuple) or isinstance(b, tuple):
+                return a if is_unknown(a) else (b if is_unknown(b) else Unknown('^ on tuples'))
+            x, y = (a, b) if repr(a) <= repr(b) else (b, a)
+            return F.fn('mask:BitXor', need(x), need(y))
         if isinstance(node, ast.Name):
             if node.id not in self.env and self.fn is not None and isinstance(node.ctx, ast.Load):
                 if node.id in self.locals_ or (self.globals_ is not None and node.id not in self.globals_):
@@ -1059,6 +1083,16 @@ class XEval(AutoEvaluator):
     def _call(self, node):
         if dotted(node.func) == "map" and len(node.args) >= 2 and not node.keywords and not any(isinstance(a, ast.Starred) for a in node.args):
             return self._map(node)
+        cast = self._cast(node, dotted(node.func))
+        if cast is not None:
+            arg, kind = cast
+            if not self.tr.dtypes:
+                self.tr.floats.append(node)          # written as the identity below: remember that a dtype changed here
+            else:
+                v = self.ev(arg)
+                if is_unknown(v) or isinstance(v, tuple):
+                    return v if is_unknown(v) else Unknown('cast of a tuple')
+                return F.fn('asfloat', need(v)) if kind == 'float' else F.fn('ascast', need(v), F.sym(kind))
         if node.args or node.keywords:
             new = self._args_expanded(node)
             ast.copy_location(new, node)
@@ -1227,6 +1261,28 @@ class XEval(AutoEvaluator):
                 args.append(F.fn("kw:" + k.arg, wrap(x)))
             return F.fn("call:np." + m, *args)
         return super()._call(node)
+
+    FLOAT_DTYPES = {"float", "np.float64", "np.double", "np.float_", "np.float32", "np.single", "np.longdouble", "numpy.float64", "numpy.float32",
+                    "'float'", "'float64'", "'float32'", "'f8'", "'f4'", "'d'", "'f'", "'double'", "'<f8'", "'=f8'", "'<f4'"}
+
+    def _cast(self, node, d):
+        """(argument node, 'float' | dtype text) when the call converts an array to another dtype: x.astype(T), np.asarray / np.array /
+        np.asanyarray / np.ascontiguousarray(x, dtype=T), float(x), np.float64(x), np.asfarray(x); None for any other call"""
+        def kind(t):
+            txt = dotted(t) if not isinstance(t, ast.Constant) else repr(t.value)
+            if txt is None:
+                txt = ast.unparse(t)
+            return "float" if txt in self.FLOAT_DTYPES else txt
+        kw = {k.arg: k.value for k in node.keywords}
+        if isinstance(node.func, ast.Attribute) and node.func.attr == "astype" and d not in ("np.astype",):
+            t = node.args[0] if node.args else kw.get("dtype")
+            return (node.func.value, kind(t)) if t is not None else None
+        if d in ("np.asarray", "np.array", "np.asanyarray", "np.ascontiguousarray", "numpy.asarray", "numpy.array") and node.args:
+            t = node.args[1] if len(node.args) >= 2 else kw.get("dtype")
+            return (node.args[0], kind(t)) if t is not None else None
+        if d in ("float", "np.float64", "np.double", "np.float32", "np.float_", "np.asfarray", "np.single") and len(node.args) == 1 and not kw:
+            return (node.args[0], "float")
+        return None
 
     def _record_call(self, node):
         n0 = len(self.tr.calls)
@@ -1691,7 +1747,7 @@ def combine_returns(rets, prefix=0):
 class XSem:
     """sem.Sem with the extended evaluator; `facts` decides regimes, everything else is explored"""
 
-    def __init__(self, ctx, fn, facts=None, inline=None, consts=None, env=None, run=True, call=None, binop=None, body=None):
+    def __init__(self, ctx, fn, facts=None, inline=None, consts=None, env=None, run=True, call=None, binop=None, body=None, dtypes=False):
         from .sem import and_binop
         self.ctx = ctx
         self.fn = fn
@@ -1702,6 +1758,7 @@ class XSem:
         if inline:
             self.ev.inline = {k: v for k, v in inline.items() if v is not fn}
         self.consts = dict(consts or {})
+        self.ev.tr.dtypes = bool(dtypes)
         if run:
             self.ev.run(fn.body if body is None else body)
         self.tr = self.ev.tr
@@ -2042,3 +2099,171 @@ class Degrees:
         if all(x is not None and (x is ANY or x == 0) for x in ds):
             return Fraction(0)
         return None
+
+
+# --------------------------------------------------------------------------------------------------------------- stencils
+class Stencil:
+    """An element-wise value over one 1-D array `base` (differences of slices, sign, abs, comparisons, mask operators, sums and products)
+    as a function of a window of consecutive elements: element j of the value reads base[j + o] for the offsets o in `offsets`.
+
+    `st(window, bits)` evaluates element 0 on concrete integers.  bits=None: exact arithmetic.  bits=8: numpy's arithmetic for an array of
+    that signed integer width - every sum, difference, product and abs whose operands all have the array's own dtype wraps around (two's
+    complement), comparisons / sign / mask operators are exact, a value that went through a conversion to float (`asfloat`) is exact from
+    there on.  Because +, -, * modulo 2^bits form a ring, the association the normal form lost does not matter for same-dtype polynomials;
+    a polynomial that mixes converted and unconverted operands in a product is refused (Unsupported), like everything that is not
+    element-wise (reductions, scalar indices, other arrays, non-integer constants, divisions).
+
+    kinds: 'b' boolean mask, 'p' Python integer (takes the dtype of the other operand), 'i' the array's own dtype, 'f' float."""
+
+    CMP = {"Eq": lambda a, b: a == b, "NotEq": lambda a, b: a != b, "Lt": lambda a, b: a < b, "LtE": lambda a, b: a <= b, "Gt": lambda a, b: a > b,
+           "GtE": lambda a, b: a >= b}
+    UFUNC_CMP = {"call:np.equal": "Eq", "call:np.not_equal": "NotEq", "call:np.less": "Lt", "call:np.less_equal": "LtE", "call:np.greater": "Gt",
+                 "call:np.greater_equal": "GtE"}
+
+    def __init__(self, v, base):
+        self.base = base
+        self.base_kind = "f" if apps(base, "asfloat") else "i"
+        self.offsets = set()
+        self.memo = {}
+        self.kind, self.f, self.sig = self._el(v, 0)
+
+    def __call__(self, window, bits=None):
+        return self.f(window, bits)
+
+    @staticmethod
+    def wrap(x, bits):
+        h = 1 << (bits - 1)
+        return ((x + h) % (2 * h)) - h
+
+    def _el(self, v, off):
+        if v is None or is_unknown(v) or isinstance(v, (tuple, str)):
+            raise Unsupported(f"not an element-wise value: {v!r}")
+        key = (v.n.key(), v.d.key(), off)
+        if key not in self.memo:
+            self.memo[key] = self._el0(v, off)
+        return self.memo[key]
+
+    def _el0(self, v, off):
+        if same(v, self.base):
+            if off < 0:
+                raise Unsupported("reads before the window")
+            self.offsets.add(off)
+            return self.base_kind, (lambda w, b, o=off: w[o]), ("x", off)
+        c = const_of(v)
+        if c is not None:
+            if c.denominator != 1:
+                raise Unsupported(f"non-integer constant {c}")
+            return "p", (lambda w, b, c=int(c): c), ("c", int(c))
+        s = sym_of(v)
+        if s in ("True", "False"):
+            return "b", (lambda w, b, c=int(s == "True"): c), ("c", s)
+        if s is not None:
+            raise Unsupported(f"reads `{s}`, which is not the array of retained samples")
+        if single_atom(v) is not None:
+            return self._atom(v, off)
+        if not v.d.is_const():
+            # a true division: floating point; exact as long as neither side multiplies unconverted integers first
+            parts = []
+            for p in (v.n, v.d):
+                for mono, coef in p.t.items():
+                    if coef.denominator != 1 or sum(e for _, e in mono) > 1:
+                        raise Unsupported("a division whose numerator or denominator is not linear")
+                parts.append(self._el(F.Rat(p), off))
+            (kn, fn_, gn), (kd, fd, gd) = parts
+            if "b" in (kn, kd):
+                raise Unsupported("division of boolean masks")
+
+            def quot(w, b, fn_=fn_, fd=fd):
+                n, d = fn_(w, b), fd(w, b)
+                return Fraction(n, d) if d else (Fraction(10 ** 9) if n > 0 else Fraction(-10 ** 9) if n < 0 else Fraction(0))      # +-inf; 0/0 is not ordered
+            return "f", quot, ("div", gn, gd)
+        if v.d.const_value() != 1:
+            raise Unsupported("a division by a constant")
+        terms = []
+        kinds = set()
+        for mono, coef in v.n.t.items():
+            if coef.denominator != 1:
+                raise Unsupported(f"non-integer coefficient {coef}")
+            fs = [self._el(F.Rat(F.Poly.atom(a)), off) + (e,) for a, e in mono]
+            kinds |= {k for k, _, _, _ in fs}
+            terms.append((int(coef), fs))
+        if kinds <= {"b", "p"} and "b" in kinds:
+            raise Unsupported("arithmetic on boolean masks")
+        kind = "f" if "f" in kinds else ("i" if "i" in kinds else "p")
+        if kind == "f" and any(sum(e for k, _, _, e in fs if k == "i") >= 2 for _, fs in terms):
+            raise Unsupported("a product of unconverted integers inside a floating-point expression (the order of evaluation decides whether it wraps)")
+
+        def poly(w, b, terms=terms, kind=kind):
+            tot = 0
+            for coef, fs in terms:
+                t = coef
+                for _, f, _, e in fs:
+                    t *= f(w, b) ** e
+                tot += t
+            return Stencil.wrap(tot, b) if kind == "i" and b else tot
+        sig = ("poly", tuple(sorted(((coef, tuple(sorted((g, e) for _, _, g, e in fs))) for coef, fs in terms), key=repr)))
+        return kind, poly, sig
+
+    def _args(self, a, off):
+        if any(isinstance(x, str) for x in a):
+            raise Unsupported("a text argument")
+        return [self._el(x, off) for x in a]
+
+    def _atom(self, v, off):
+        nm, a = app(v)
+        if nm == "idx":
+            if len(a) != 2 or isinstance(a[0], str) or isinstance(a[1], str):
+                raise Unsupported("index")
+            sl = app(a[1], "slice")
+            if sl is None:
+                raise Unsupported(f"the index {a[1]!r} is not a slice (the value is not element-wise)")
+            lo, hi, stp = sl[1]
+            clo = 0 if sym_of(lo) == "None" else const_of(lo)
+            chi = 0 if sym_of(hi) == "None" else const_of(hi)
+            if sym_of(stp) != "None" or clo is None or chi is None or clo.denominator != 1 or clo < 0 or chi > 0:
+                raise Unsupported(f"slice {a[1]!r}")
+            return self._el(a[0], off + int(clo))
+        if nm in ("abs", "call:np.abs", "call:np.absolute", "call:np.fabs", "call:abs") and len(a) == 1:
+            (k, f, g), = self._args(a, off)
+            if k == "b":
+                raise Unsupported("abs of a boolean mask")
+            return k, (lambda w, b, f=f, k=k: Stencil.wrap(abs(f(w, b)), b) if k == "i" and b else abs(f(w, b))), ("abs", g)
+        if nm == "call:np.sign" and len(a) == 1:
+            (k, f, g), = self._args(a, off)
+            if k == "b":
+                raise Unsupported("sign of a boolean mask")
+            return k, (lambda w, b, f=f: (lambda x: (x > 0) - (x < 0))(f(w, b))), ("sign", g)
+        if nm == "call:np.signbit" and len(a) == 1:
+            (k, f, g), = self._args(a, off)
+            return "b", (lambda w, b, f=f: int(f(w, b) < 0)), ("signbit", g)
+        if nm == "asfloat" and len(a) == 1:
+            (k, f, g), = self._args(a, off)
+            return "f", f, ("asfloat", g)
+        op = nm[4:] if nm.startswith("cmp:") else self.UFUNC_CMP.get(nm)
+        if op in self.CMP and len(a) == 2:
+            (_, f1, g1), (_, f2, g2) = self._args(a, off)
+            return "b", (lambda w, b, f1=f1, f2=f2, c=self.CMP[op]: int(c(f1(w, b), f2(w, b)))), ("cmp", op, g1, g2)
+        if nm in ("not", "invert", "call:np.logical_not", "call:np.invert", "call:np.bitwise_not") and len(a) == 1:
+            (k, f, g), = self._args(a, off)
+            if k != "b" and nm != "call:np.logical_not":
+                raise Unsupported("bitwise complement of integers")
+            return "b", (lambda w, b, f=f: int(not f(w, b))), ("not", g)
+        junct = {"bool:And": all, "mask:BitAnd": all, "call:np.logical_and": all, "call:np.bitwise_and": all,
+                 "bool:Or": any, "mask:BitOr": any, "call:np.logical_or": any, "call:np.bitwise_or": any,
+                 "mask:BitXor": lambda xs: sum(1 for x in xs if x) % 2 == 1, "call:np.logical_xor": lambda xs: sum(1 for x in xs if x) % 2 == 1,
+                 "call:np.bitwise_xor": lambda xs: sum(1 for x in xs if x) % 2 == 1}
+        if nm in junct and len(a) >= 2:
+            xs = self._args(a, off)
+            if any(k != "b" for k, _, _ in xs) and not nm.startswith("call:np.logical_"):
+                raise Unsupported(f"{nm} on integers")
+            fs = [f for _, f, _ in xs]
+            return "b", (lambda w, b, fs=fs, j=junct[nm]: int(bool(j([bool(f(w, b)) for f in fs])))), \
+                (nm.split(":")[-1].replace("np.logical_", "").replace("np.bitwise_", "").replace("Bit", "").lower(), tuple(sorted((g for _, _, g in xs), key=repr)))
+        if nm in ("ite", "call:np.where") and len(a) == 3:
+            (_, fc, gc), (ka, fa, ga), (kb, fb, gb) = self._args(a, off)
+            order = "bpif"
+            k = ka if order.index(ka) >= order.index(kb) else kb
+            if {ka, kb} == {"b", "p"}:
+                k = "b"          # np.where(c, False, True) / the evaluator's 0 and 1 for the literals
+            return k, (lambda w, b, fc=fc, fa=fa, fb=fb: fa(w, b) if fc(w, b) else fb(w, b)), ("ite", gc, ga, gb)
+        raise Unsupported(f"`{nm}` is not an element-wise operation this evaluation knows")
